@@ -70,6 +70,7 @@ LITERAL_PDF = LIT("PDF")
 LITERAL_TEXT = LIT("Text")
 LITERAL_FONT = LIT("Font")
 LITERAL_FORM = LIT("Form")
+LITERAL_TYPE0 = LIT("Type0")
 LITERAL_IMAGE = LIT("Image")
 
 
@@ -242,6 +243,11 @@ class PDFResourceManager:
                 dfonts = list_value(spec["DescendantFonts"])
                 assert dfonts
                 subspec = dict_value(dfonts[0]).copy()
+                if subspec.get("Subtype") is LITERAL_TYPE0:
+                    # the descendant of a composite font is a CIDFont; a
+                    # Type0 font descending from a Type0 font (or from
+                    # itself) would be followed for ever
+                    raise PDFFontError("DescendantFonts of a Type0 font is a Type0 font")
                 for k in ("Encoding", "ToUnicode"):
                     if k in spec:
                         subspec[k] = resolve1(spec[k])
